@@ -5,33 +5,33 @@ cd "$(dirname "$0")"
 export GOFLAGS=-mod=mod GOPROXY=off
 unset GOSUMDB GOTOOLCHAIN
 mkdir -p build evidence
-python3 - <<'PY'
-import sys, json
-sys.path.insert(0, "lib")
-import vcheck
-targets = ["props/%s.vo" % c["property_id"] for c in json.load(open("MANIFEST.json"))["checks"]]
-rc, out = vcheck.coq_make(targets)
-print(out[-3000:] if rc else "coq make ok: %d property targets" % len(targets))
-sys.exit(rc)
-PY
 # warm the Go build cache for the repository with and without the hook tag
 ( cd /repo && go build ./... && go build -tags verif ./... ) 2>&1 | tail -5
-# prebuild every harness binary (each check rebuilds incrementally anyway)
 python3 - <<'PY'
+# 1. build every harness, 2. regenerate coq/gen from the built code, 3. full .vo build of every claimed property
 import sys, os, json
 sys.path.insert(0, "lib")
 import vcheck
 m = json.load(open("MANIFEST.json"))
+ok = True
 for c in m["checks"]:
     p = c["property_id"]
     meta = vcheck.load_meta(p)
     b = os.path.join(vcheck.VERIF, "build", p)
     os.makedirs(b, exist_ok=True)
     rc, out, exe, cmd = vcheck.build_harness(p, meta, b)
-    print(p, "harness build rc=%d" % rc)
-    if rc: print(out[-2000:])
+    print(p, "harness build rc=%d" % rc, flush=True)
+    if rc:
+        print(out[-2000:]); ok = False; continue
     if meta["race"]:
-        rc, out, exe, cmd = vcheck.build_harness(p, meta, b, race=True)
-        print(p, "race harness build rc=%d" % rc)
+        rc2, out2, _, _ = vcheck.build_harness(p, meta, b, race=True)
+        print(p, "race harness build rc=%d" % rc2, flush=True)
+    if meta["gen"]:
+        br = vcheck.regen_tables(p, meta, exe, b)
+        print(p, "tables regenerated" if not br else "TABLES FAILED: %s" % br, flush=True)
+targets = ["props/%s.vo" % c["property_id"] for c in m["checks"]]
+rc, out = vcheck.coq_make(targets)
+print(out[-3000:] if rc else "coq make ok: %d property targets" % len(targets))
+sys.exit(rc)
 PY
 echo setup done
